@@ -26,7 +26,10 @@ Proof. unfold v3_scale, smul. carrier_R. f_equal; ring. Qed.
 
 (* ================================================================ sphere *)
 Lemma Sphere_eq c r p : Sphere c r p = dist p c - r.
-Proof. unfold Sphere. rewrite gen_distance. reflexivity. Qed.
+Proof.
+  unfold Sphere. cbv zeta. rewrite gen_distance. carrier_R.
+  first [reflexivity | rewrite (dist_sym c p); reflexivity].
+Qed.
 
 Theorem sphere_sign c r : sdf_sign (Sphere c r) (ball_int c r) (sphere_surf c r).
 Proof.
@@ -79,7 +82,9 @@ Qed.
 
 (* ================================================================ plane *)
 Lemma Plane_eq pos n h p : Plane pos n h p = plane_fn pos n h p.
-Proof. reflexivity. Qed.
+Proof.
+  unfold Plane, plane_fn, v3_dot, v3_sub, dot, psub. cbv zeta. carrier_R. cbn [v3x v3y v3z]. ring.
+Qed.
 
 Theorem plane_sign pos n h : sdf_sign (Plane pos n h) (halfspace_int pos n h) (plane_surf pos n h).
 Proof. intros p. rewrite Plane_eq. unfold halfspace_int, plane_surf. split; split; intros; lra. Qed.
